@@ -7,6 +7,8 @@ structure St where
   lc  : LifeCycle := LC.initial
   cur : String := "initialization"
   sim : Sim := Ctx.init 0 1 0
+  nest : Nest := {}
+  interactive : Bool := false
 
 def failName : Fail → String
   | .transition => "transition" | .unknown => "unknown" | .constraint => "constraint" | .other => "other"
@@ -14,7 +16,18 @@ def failName : Fail → String
 def reply (tag : String) (before : Sim) (s : Sim) : String :=
   s!"{tag} {s.ctl.st} {s.clock} {showStrs (s.ctl.log.drop before.ctl.log.length)}"
 
+/-- reply for a `Sim`-level result without nested request -/
+def fin (s : St) : Except (Fail × Sim) Sim → St × String
+  | .ok s' => ({ s with sim := s' }, reply "ok" s.sim s')
+  | .error (f, s') => ({ s with sim := s' }, reply ("err:" ++ failName f) s.sim s')
+
+/-- reply for a result of the nested-aware runs -/
+def finN (s : St) : Except (Fail × Sim × Nest) (Sim × Nest) → St × String
+  | .ok (s', n) => ({ s with sim := s', nest := n }, reply "ok" s.sim s')
+  | .error (f, s', n) => ({ s with sim := s', nest := n }, reply ("err:" ++ failName f) s.sim s')
+
 def step (s : St) : List String → St × String
+  | ["lc", "engine"] => ({ s with lc := Ctx.lifecycle, cur := "initialization" }, "ok")
   | ["lc", "new"] => ({ s with lc := LC.initial, cur := "initialization" }, "ok")
   | ["lc", "phase", name, states, loop] =>
     match bool? loop with
@@ -30,28 +43,49 @@ def step (s : St) : List String → St × String
     | .error .transition => (s, s!"err transition {s.cur}")
   | ["ctx", "new", a, b, c] =>
     match a.toInt?, b.toInt?, c.toInt? with
-    | some a, some b, some c => ({ s with sim := Ctx.init a b c }, "ok")
+    | some a, some b, some c => ({ s with sim := Ctx.init a b c, nest := {} }, "ok")
     | _, _, _ => (s, "bad-op")
   | ["ctx", "call", m] =>
     if (Viv.Gen.skeleton.find? (·.1 == m)).isNone then (s, "bad-op") else
-    match call m s.sim with
-    | .ok s' => ({ s with sim := s' }, reply "ok" s.sim s')
-    | .error (f, s') => ({ s with sim := s' }, reply ("err:" ++ failName f) s.sim s')
+    finN s (callN m (s.sim, s.nest))
+  | ["ctx", "kind", k] =>
+    -- `interactive`: `setup` means `InteractiveContext.setup` (for `runsim` and nested `setup` calls)
+    if k = "interactive" then ({ s with interactive := true }, "ok")
+    else if k = "simulation" then ({ s with interactive := false }, "ok") else (s, "bad-op")
+  | ["ctx", "nest", ev, kind, arg] =>
+    if kind = "set" then ({ s with nest := { ev := ev, req := .set arg } }, reply "ok" s.sim s.sim)
+    else if kind = "call" then
+      if (Viv.Gen.skeleton.find? (·.1 == arg)).isNone then (s, "bad-op")
+      else ({ s with nest := { ev := ev, req := .call arg } }, reply "ok" s.sim s.sim)
+    else (s, "bad-op")
+  | ["ctx", "runsim"] => if s.nest.ev ≠ "" then (s, "bad-op") else fin s (runSimulation s.interactive 100000 s.sim)
+  | ["ctx", "xstep", x] =>
+    match x.toInt? with
+    | some x => if s.nest.ev ≠ "" then (s, "bad-op") else fin s (stepWithSize x s.sim)
+    | none => (s, "bad-op")
+  | ["ctx", "until", t] =>
+    match t.toInt? with
+    | some t => if s.nest.ev ≠ "" then (s, "bad-op") else fin s (runUntil 100000 t s.sim)
+    | none => (s, "bad-op")
+  | ["ctx", "for", d] =>
+    -- `run_for(d)` = `run_until(now + d)`
+    match d.toInt? with
+    | some d => if s.nest.ev ≠ "" then (s, "bad-op") else fin s (runUntil 100000 (s.sim.clock + d) s.sim)
+    | none => (s, "bad-op")
+  | ["ctx", "take", n] =>
+    match n.toNat? with
+    | some n => if s.nest.ev ≠ "" then (s, "bad-op") else fin s (takeN n s.sim)
+    | none => (s, "bad-op")
   | ["ctx", "isetup"] =>
     -- `InteractiveContext.setup()`: `super().setup()` then `self.initialize_simulants()`
-    match call "setup" s.sim with
-    | .error (f, s') => ({ s with sim := s' }, reply ("err:" ++ failName f) s.sim s')
-    | .ok s1 =>
-      match call "initialize_simulants" s1 with
-      | .ok s' => ({ s with sim := s' }, reply "ok" s.sim s')
-      | .error (f, s') => ({ s with sim := s' }, reply ("err:" ++ failName f) s.sim s')
+    match callN "setup" (s.sim, s.nest) with
+    | .error e => finN s (.error e)
+    | .ok x => finN s (callN "initialize_simulants" x)
   | ["ctx", "fail", e] =>
     let s' := { s.sim with ctl := { s.sim.ctl with failOn := e } }
     ({ s with sim := s' }, reply "ok" s.sim s')
   | ["ctx", "run"] =>
-    match run 100000 s.sim with
-    | .ok s' => ({ s with sim := s' }, reply "ok" s.sim s')
-    | .error (f, s') => ({ s with sim := s' }, reply ("err:" ++ failName f) s.sim s')
+    finN s (runN 100000 (s.sim, s.nest))
   | ["ctx", "set", t] =>
     match setState lifecycle s.sim.ctl.st t with
     | .ok t' =>
